@@ -427,8 +427,19 @@ def run_case(c):
                     if not (r.status == 'error' and r.error is raised.get(i) and r.result is None):
                         viol.append(('C12.c', f'h{i}: {k} -> result {r.status} error {r.error!r} value {r.result!r}'))
             # ---- accessor oracle: all flag combinations x include family x accessors, on the recorded results
+            import copy
+
+            def _snap(v):
+                try:
+                    return copy.deepcopy(v) if isinstance(v, (list, dict, tuple, set)) else v
+                except Exception:  # noqa
+                    return v
+
             rows = [Row(r) for r in results]
+            for row in rows:
+                row.result = _snap(row.result)  # the reference model works on a private copy of what was recorded
             before = [(r.id, r.status, id(r.result), id(r.error)) for r in results]
+            before_values = [_snap(r.result) for r in results]
             ncalls = 0
             for name in ACCESSORS:
                 for incname, inc in INCLUDES.items():
@@ -468,6 +479,10 @@ def run_case(c):
             after = [(r.id, r.status, id(r.result), id(r.error)) for r in ev.event_results.values()]
             if after != before:
                 viol.append(('C12.pure', 'calling the accessors changed the recorded results'))
+            for r0, r1 in zip(before_values, [r.result for r in ev.event_results.values()]):
+                if isinstance(r0, (list, dict, tuple, set)) and r0 != r1:
+                    viol.append(('C12.pure', f'calling the accessors mutated a recorded result in place: {r0!r} became {r1!r}'))
+                    break
             info['ncalls'] = ncalls
             await bus.stop(clear=True)
 
